@@ -36,33 +36,46 @@ THEOREMS = [P + t for t in (
     "gen_service_properties_readable", "gen_node_required_readable", "gen_names_are_members", "gen_no_instance_limit",
     "gen_instances_void", "validate_rejects_with_topology_of", "validate_rejects_with_topology", "validate_iff_spec_gen", "validate_counts_by_identity",
     "gen_no_falsy_values", "gen_hollow_harmless", "services_full_of_valid", "falsy_value_counterexample",
-    "interface_order_irrelevant", "interface_order_irrelevant_gen", "verdict_of_eraseNames", "history_connect_disconnect",
+    "interface_order_irrelevant", "interface_order_irrelevant_gen", "validate_twice", "history_validate", "history_validate_twice", "verdict_of_eraseNames", "history_connect_disconnect",
     "history_connect_order", "history_rename", "validate_pins_multisite_counterexample", "failed_validate_leaves_site_counterexample")]
 EXHAUSTIVE = True
 TRUSTED_BASE = [
-    "gen/constraints.py: dump of the three constraint tables, getter/shallow-sliver property lists, guardrail idiom, _list_nodes filter",
+    "gen/constraints.py: dump of the three constraint tables (imported values), getter lists (introspection), shallow-sliver property lists "
+    "(AST of the set_properties calls); everything else is OBSERVED on scratch topologies built through the API: the four presence tests "
+    "(table row and sliver getter patched for one call), guardrail pairs over all type pairs and who runs the guardrails, node types that reach "
+    "validate_constraints, node properties the check sees, topology classes with interface-count limits, value classes that can be falsy",
     "Model/Validate.lean mirrors the order of checks of Topology.validate / validate_constraints / __validate_nstype_constraints / "
     "Node.validate_constraints / connect_interface by hand; checked differentially on every case below",
-    "abstraction of a slice (harness build() <-> request line): a node is (type, truthy properties), a service is (type, site, truthy "
-    "properties, owner site, interfaces with peers); graph queries (get_owner_node, get_peers, network_services listing) are not modelled; "
-    "on every fifth case the description is read back through the API (extract()) and must equal the one derived from the case",
+    "Model/ValidateHist.lean mirrors by hand what connect_interface, disconnect_interface, remove_node, remove_component, rename, the site setter, "
+    "peer and unpeer do to the slice; checked differentially on every history: outcome of every call and the slice as it is afterwards, read "
+    "back through the API",
+    "abstraction of a slice (harness build() <-> request line): a node is (type, properties set, hollow values, blank values), a service is (type, "
+    "site, properties, owner site, interfaces with peers); graph queries (get_owner_node, get_peers, network_services listing) are not modelled; "
+    "on every fifth case and before every validate of a history the description is read back through the API (extract()) and must give the same "
+    "verdict / equal the one derived from the calls",
     "instances-per-site pass: with more than one limited service type the code visits the types in set order; the model reports the crash "
     "branch first (exact for one limited type, which is all the edited-table stream generates; the shipped table limits none)",
 ]
 ASSUMPTIONS = [
-    "element names are unique within their scope (Topology.network_services / NetworkService.interfaces are dictionaries by name)",
+    "element names are unique within their scope (Topology.nodes / network_services are dictionaries by name: a second service of the same name is "
+    "not seen by validate at all); the derived names of service ports and interface names are NOT assumed unique",
     "owner nodes carry a site string (the Node constructor requires one); it may be empty",
+    "histories call the API with fresh handles (a NetworkService handle caches its interface list)",
 ]
 RULE = ("grid A: 15 service types x 23 site placements of 0..4 interfaces over <=3 sites x declared site {none, first, other} x 12 interface-kind "
         "patterns (8 uniform + 4 mixed); grid B: service types x 5 placements x declared x {DedicatedPort, SharedPort} x every subset of the "
-        "type's constrained properties; grid C: 6 node types x site/image/management_ip/component flags; grid D: natural builds (NICs, "
-        "add_facility, add_switch, port mirror, peer(), dangling and owner-less interfaces, substrate topologies); grid E: edited tables; "
-        "grid F: service type x interface kind x constructor/connect_interface x fresh/connected; grid G: an interface at another site connected and disconnected again before the final wiring (history must not matter); grid H: every constrained object-valued property "
-        "(ero) given as an object without content (graph reference, no payload, path without hops) - also inside grid B. quick samples A and B; thorough runs all. "
-        "naming: half of A/B/D use node and interface names whose derived '<node>-<interface>' service-port names all coincide (n1, n1-x, "
-        ".. with x-x-p0, x-p0, ..); D adds NIC builds with prefix-related names (n1/nic-aa vs n1-nic/aa, nic1/nic10); interfaces are "
-        "counted by identity in the request line (name carried as a label) and in the oracle. "
-        "distinct by abstract configuration")
+        "type's constrained properties; grid C: 6 node types x site {set, blank} x image {none, set, blank strings} x management_ip {none, set, zero "
+        "address} x component, in experiment and substrate topologies, and every invalid node next to valid nodes of every other type; grid D: natural "
+        "builds (NICs, add_facility, add_switch, port mirror, peer(), dangling and owner-less interfaces, substrate topologies); grid E: edited tables; "
+        "grid F: service type x interface kind x constructor/connect_interface x fresh/connected; grid G: an interface at another site connected and "
+        "disconnected again before the final wiring; grid G2 (histories, every service type): validate-move-validate, grow after a validation, failed "
+        "validation then repair, remove_node / remove_component of an owner between connect and validate, renames before and after the connect (also "
+        "to coinciding derived names), node site changed before / between validations, all 6 orders of three connects over two services, peer / "
+        "unpeer / disconnect on a peering port / disconnect called on the wrong service; random histories of 3..10 calls over 2..4 nodes and 1..2 "
+        "services; grid H: every constrained object-valued property (ero) given as an object without content, every constrained string-valued "
+        "property given as the empty string. quick samples A and B (1100) and runs 250 random histories; thorough runs all of A and B and 4000 "
+        "random histories. naming: half of A/B/D use node and interface names whose derived '<node>-<interface>' service-port names all coincide; "
+        "interfaces are counted by identity in the request line (name carried as a label) and in the oracle. distinct by abstract configuration / history")
 
 SITES = ["RENC", "UKY", "LBNL"]
 KINDS = ["AccessPort", "TrunkPort", "DedicatedPort", "SharedPort", "vInt", "StitchPort", "FacilityPort", "SubInterface"]
@@ -336,6 +349,15 @@ def grid_D():
                                       [[0, 0, 0], [1, 0, 0], [0, 0, 1], [1, 0, 1]], [[0, 0, 0]], [[3, 0, 0], [4, 0, 0]])):
                 for how in (("ctor", "connect") if vi < 2 else ("ctor",)):
                     yield {"exp": True, "ov": None, "nodes": nodes(1 + max(x[0] for x in ifs)), "svcs": [mksvc(ty, ifs, props=baseline_props(ty), how=how)]}
+    # services of different nodes may have the same name (names are unique within a node only): every one of them is validated
+    for exp in (True, False):
+        for first_bad in (True, False):
+            for third in (False, True):
+                kinds = [[], ["TrunkPort"]] if first_bad else [["TrunkPort"], []]
+                nodes = [mknode("VM", s_, groups=[dict(G("generic", "OVS", k), sname="ovs")]) for s_, k in zip(("RENC", "UKY"), kinds)]
+                if third:
+                    nodes.append(mknode("VM", "LBNL", groups=[dict(G("generic", "OVS", ["TrunkPort", "TrunkPort"]), sname="ovs")]))
+                yield {"exp": exp, "ov": None, "nodes": nodes, "svcs": []}
     # port mirror through its own constructor
     for site in (None, "RENC", "UKY"):
         for kind in ("DedicatedPort", "SharedPort"):
@@ -505,6 +527,7 @@ def build(case, F):
     b = Built()
     b.topo, b.iface, b.abstract, b.nodes_abs = t, {}, {}, []
     b.node, b.comp_name, b.owned_name, b.parent_iface = {}, {}, {}, {}      # handles and names, for the history cases
+    b.key_of_id = {}      # graph id of a service -> its key in b.abstract (its name; name@node.group when the name is taken)
     ids = itertools.count()
     nid = lambda: None if exp else "id%d" % next(ids)
     for ni, n in enumerate(case["nodes"]):
@@ -529,10 +552,12 @@ def build(case, F):
                 sname = name + "-ns"
                 ifs = [node.interfaces[pre + "p%d" % i] for i in range(len(g["kinds"]))]
                 direct = ["FacilityPort"] * len(ifs)
+                sid = node.network_services[sname].node_id
             elif via == "switch":
                 sname = name + "-ns"
                 ifs = [node.interfaces["p%d" % (i + 1)] for i in range(len(g["kinds"]))]
                 direct = ["DedicatedPort"] * len(ifs)
+                sid = node.network_services[sname].node_id
             elif via in ("nic_shared", "nic_smart"):
                 cname = g.get("cname") or (pre + "nic%d" % gi)
                 model = F["ComponentModelType"].SharedNIC_ConnectX_6 if via == "nic_shared" else F["ComponentModelType"].SmartNIC_ConnectX_6
@@ -542,11 +567,13 @@ def build(case, F):
                 ifs = list(comp.interface_list)
                 direct = [str(i.type) for i in ifs]
                 sname = list(comp.network_services.keys())[0]
+                sid = comp.network_services[sname].node_id
                 if direct != g["kinds"]:
                     raise Infra("NIC %s has ports %s, case says %s" % (via, direct, g["kinds"]))
             else:
-                sname = "%s-g%d" % (name, gi)
+                sname = g.get("sname") or "%s-g%d" % (name, gi)      # "sname": a name another node's service may have too
                 hs = node.add_network_service(name=sname, nstype=ST[g["sty"]], node_id=nid())
+                sid = hs.node_id
                 ifs, direct, dnames = [], [], []
                 for ii, kind in enumerate(g["kinds"]):
                     if kind == "SubInterface":
@@ -564,7 +591,9 @@ def build(case, F):
             b.owned_name[(ni, gi)] = sname
             for ii, x in enumerate(ifs):
                 b.iface[(ni, gi, ii)] = x
-            b.abstract[sname] = [g["sty"], None, [], n["site"], [["d", nm, k] for nm, k in zip(dnames, direct)]]
+            key = sname if sname not in b.abstract else "%s@%d.%d" % (sname, ni, gi)
+            b.key_of_id[sid] = key
+            b.abstract[key] = [g["sty"], None, [], n["site"], [["d", nm, k] for nm, k in zip(dnames, direct)]]
         if n["gpu"]:
             node.add_component(name="gpu1", model_type=F["ComponentModelType"].GPU_RTX6000)
             has_comp = True
@@ -604,6 +633,7 @@ def build(case, F):
         if s["how"] != "connect":
             _churn(F, b, svc, s)
         svcs.append(svc)
+        b.key_of_id[svc.node_id] = name
         aifs = []
         for xi, x in enumerate(s["ifs"]):
             n = case["nodes"][x[0]]
@@ -676,10 +706,12 @@ def run_case(case):
             except Exception as e:
                 return {"build_err": "%s: %s" % (type(e).__name__, str(e)[:200])}
             t = b.topo
-            listed = t.network_services        # one listing: every call builds a handle for every service
-            order = list(listed.keys())
+            # every service of the graph, by id (the name-keyed network_services view shows one service per name); one handle each
+            ids = list(t.graph_model.get_all_network_service_nodes())
+            order = [b.key_of_id.get(sid, "?" + sid) for sid in ids]
+            listed = {k: t._get_ns_by_id(sid) for k, sid in zip(order, ids)}
             if sorted(order) != sorted(b.abstract):
-                return {"build_err": "service names differ: api %s harness %s" % (order, sorted(b.abstract))}
+                return {"build_err": "services differ: api %s harness %s" % (order, sorted(b.abstract))}
             # sanity of the builder itself: the kinds the API lists for each service are the ones described
             for name in order:
                 api = [str(i.type) for i in listed[name].interface_list]
@@ -703,7 +735,7 @@ def run_case(case):
                 except Exception as e:
                     status = err_kind(e)
                     out["msg"] = str(e)[:160]
-            services = t.network_services
+            services = {k: t._get_ns_by_id(sid) for k, sid in zip(order, ids)}
             out["status"] = status
             out["order"] = order
             out["sites"] = [services[n].site for n in order]
@@ -969,8 +1001,10 @@ def judge(case, out, res):
     status = out["status"]
     cls = sorted({r[0] for r in reasons})
     if status == "ok" and reasons:
+        snames = [g.get("sname") for n in case["nodes"] for g in n["groups"] if g.get("sname")]
+        dup = "same-named-service:" if len(set(snames)) < len(snames) else ""      # services of different nodes with one name
         for c in cls:
-            res.violation("C10:validate:accepts-invalid:" + c, "validate() accepts a slice that violates the constraint table (%s)" % c,
+            res.violation("C10:validate:accepts-invalid:" + dup + c, "validate() accepts a slice that violates the constraint table (%s)" % c,
                           case, expected={"verdict": "reject", "reasons": reasons}, observed={"verdict": "accept"})
     elif status != "ok" and not reasons:
         res.violation("C10:validate:rejects-valid:" + status, "validate() rejects a slice the constraint table allows",
